@@ -62,3 +62,41 @@ def none_tests_rule(repo: Repo, prop: str, rule_id: str, module_prefixes: Tuple[
                         key=f"{p}:truthy#{k}",
                     )
     return r
+
+
+# ---------------------------------------------------------------------------------------------------------------------
+def flag_identity_rule(repo, prop: str, rule_id: str, module_prefixes=("",)):
+    """A boolean flag is tested by truth: `if end_face:`. `if end_face is True:` (or `== True` / `is False`) is passed by the literal
+    only - a flag computed by a comparison of numpy values (numpy.bool_) or given as 1 silently takes the other branch and the
+    entity at the OTHER end is addressed. For every parameter annotated `bool`: no identity / equality test against True or False.
+    Expected count zero; the matcher is exercised on an embedded example on every run."""
+    import ast as _ast
+
+    from .model import AnalysisError
+    from .report import RuleRun
+
+    r = RuleRun(prop, rule_id, floor=1, what="no boolean flag parameter is compared with the literals True / False by identity or equality (numpy.bool_ and 1 would take the other branch)")
+
+    def hits(fn_node):
+        flags = {a.arg for a in [*fn_node.args.args, *fn_node.args.kwonlyargs] if a.annotation is not None and _ast.unparse(a.annotation) in ("bool", "Optional[bool]")}
+        out = []
+        for n in _ast.walk(fn_node):
+            if isinstance(n, _ast.Compare) and len(n.ops) == 1 and isinstance(n.ops[0], (_ast.Is, _ast.IsNot, _ast.Eq, _ast.NotEq)):
+                sides = [n.left, n.comparators[0]]
+                if any(isinstance(s_, _ast.Name) and s_.id in flags for s_ in sides) and any(isinstance(s_, _ast.Constant) and isinstance(s_.value, bool) for s_ in sides):
+                    out.append(n)
+        return out
+
+    probe = _ast.parse("def f(self, end_face: bool, other: bool):\n    if end_face is True:\n        return 2\n    if other:\n        return 3\n    return 1")
+    if len(hits(probe.body[0])) != 1:
+        raise AnalysisError(f"{rule_id}: the matcher no longer recognises its embedded example")
+    n = 0
+    for fn in sorted(repo.all_functions(), key=lambda f_: f_.qualname):
+        short = fn.module.name.split("classy_blocks.")[-1]
+        if not any(short.startswith(p) for p in module_prefixes):
+            continue
+        n += 1
+        for k, node in enumerate(hits(fn.node)):
+            r.bad(fn, f"{fn.qualname}: '{_ast.unparse(node)}' tests a boolean flag against the literal: a flag that is truthy but not the object True (numpy.bool_ from a comparison, 1) takes the other branch - the wrong end / side is addressed without any error", node, key=f"flag#{k}")
+    r.ok(None, f"{n} functions scanned; matcher verified on its embedded example", key="scan")
+    return r
